@@ -4,6 +4,8 @@ def nontrivial(req, obs):
     if f[0] == "sub":
         # a stream with at least two deliveries (so "next only after settle" is exercised)
         return sum(1 for t in f[2:] if t == "R") >= 2
+    if f[0] == "reg":
+        return sum(1 for t in f[3:] if t.startswith("ps,")) >= 1 and sum(1 for t in f[3:] if t.startswith("sg,")) >= 1
     if f[0] == "top":
         return sum(1 for t in f[5:] if t.startswith("rv,")) >= 2
     return False
@@ -49,7 +51,7 @@ PROP = {
     ],
     "assumptions": [
         "the registry model M_reg (lean/WmModel/GcReg.lean: RWMutex with writer announcement, topic mutexes, closedLock, WaitGroup, dispatchers) "
-        "carries blocking_publish_waits and the D11 witness; it is tied to the code by the function skeletons only (no trace conformance yet); "
+        "carries blocking_publish_waits and the D11 witness; it is tied to the code by the function skeletons and by trace inclusion of the recorded API+hook streams (lean/WmModel/GcRegConf.lean); "
         "publisher order and 'returns at all' are decided by the monitors on recorded traces",
         "known finding D11 (nested publish + pending writer deadlocks a blocking Publish) is recorded, see known-findings.json",
     ],
